@@ -40,27 +40,30 @@ impl<'a> RegExp<'a> {
         let mut ast = Expression::from(dfa, config);
 
         if config.is_start_anchor_disabled && config.is_end_anchor_disabled {
-            let mut regex = Self::convert_expr_to_regex(&ast, config);
+            // Surrogate pairs are not valid in the regex crate, such a pattern cannot be checked.
+            if let Some(mut regex) = Self::convert_expr_to_regex(&ast, config) {
+                if config.is_verbose_mode_enabled {
+                    // Remove line breaks before checking matches, otherwise check will be incorrect.
+                    regex = Regex::new(&regex.to_string().replace('\n', "")).unwrap();
+                }
 
-            if config.is_verbose_mode_enabled {
-                // Remove line breaks before checking matches, otherwise check will be incorrect.
-                regex = Regex::new(&regex.to_string().replace('\n', "")).unwrap();
-            }
+                if !Self::is_each_test_case_matched_after_rotating_alternations(
+                    &regex, &mut ast, test_cases,
+                ) {
+                    dfa = Dfa::from(&grapheme_clusters, false, config);
+                    ast = Expression::from(dfa, config);
 
-            if !Self::is_each_test_case_matched_after_rotating_alternations(
-                &regex, &mut ast, test_cases,
-            ) {
-                dfa = Dfa::from(&grapheme_clusters, false, config);
-                ast = Expression::from(dfa, config);
-                regex = Self::convert_expr_to_regex(&ast, config);
+                    let is_each_test_case_matched = Self::convert_expr_to_regex(&ast, config)
+                        .is_some_and(|regex| Self::regex_matches_all_test_cases(&regex, test_cases));
 
-                if !Self::regex_matches_all_test_cases(&regex, test_cases) {
-                    let mut exprs = vec![];
-                    for cluster in grapheme_clusters {
-                        let literal = Expression::new_literal(cluster, config);
-                        exprs.push(literal);
+                    if !is_each_test_case_matched {
+                        let mut exprs = vec![];
+                        for cluster in grapheme_clusters {
+                            let literal = Expression::new_literal(cluster, config);
+                            exprs.push(literal);
+                        }
+                        ast = Expression::new_alternation(exprs, config);
                     }
-                    ast = Expression::new_alternation(exprs, config);
                 }
             }
         }
@@ -85,12 +88,12 @@ impl<'a> RegExp<'a> {
             .collect_vec();
     }
 
-    fn convert_expr_to_regex(expr: &Expression, config: &RegExpConfig) -> Regex {
+    fn convert_expr_to_regex(expr: &Expression, config: &RegExpConfig) -> Option<Regex> {
         if config.is_output_colorized {
             let color_replace_regex = Regex::new("\u{1b}\\[(?:\\d+;\\d+|0)m").unwrap();
-            Regex::new(&color_replace_regex.replace_all(&expr.to_string(), "")).unwrap()
+            Regex::new(&color_replace_regex.replace_all(&expr.to_string(), "")).ok()
         } else {
-            Regex::new(&expr.to_string()).unwrap()
+            Regex::new(&expr.to_string()).ok()
         }
     }
 
